@@ -117,7 +117,9 @@ def histories(draw):
     steps.append({"op": "eval", "where": draw(st.sampled_from(["worker", "fresh"])), "dtype": "double", "rr": None})
     # the included C file sits beside the plugin or in a lib/ subdirectory of its own (as models/lib does)
     # ... and the model is loaded directly or through a second plugin that reparameterises it (nested plugins)
-    return {"steps": steps, "layout": draw(st.sampled_from(["beside", "lib"])), "wrapper": draw(st.booleans())}
+    return {"steps": steps, "layout": draw(st.sampled_from(["beside", "lib"])), "wrapper": draw(st.booleans()),
+            # plugin file names may carry a version or variant after a dot (decay.v2.py)
+            "dotted": draw(st.integers(0, 3)) == 0}
 
 
 class Driver(object):
@@ -153,7 +155,9 @@ def check_history(case, rec):
     libname = "lib/plug_lib.c" if layout == "lib" else "plug_lib.c"
     if layout == "lib":
         os.makedirs(os.path.join(base, "lib"))
-    plug, lib = os.path.join(base, "plug17.py"), os.path.join(base, libname)
+    plug, lib = os.path.join(base, "plug17.v2.py" if case.get("dotted") else "plug17.py"), os.path.join(base, libname)
+    if case.get("dotted"):
+        rec.cls("dotted-plugin-file-name")
     header = os.path.join(pkg, "sasmodels", "kernel_header.c")
     state = {"k1": 1.5, "k2": 2.0, "k3": None, "zz": None, "rr_default": 20.0, "libname": libname, "k4": 1.0}
     clock = [1700000000]
